@@ -33,7 +33,27 @@ def _yaml_variables(var: str, other: str) -> SCFG:
     return SCFG(graph=blocks)
 
 
+def _nested_headers() -> SCFG:
+    """A hand-made hierarchy (as the test-suite writes them): an outer loop region whose header is an inner loop region whose header is a
+    head region whose header is block h - the back edge of the outer latch names a region nested TWICE above its innermost header."""
+    from .unproject import unproject
+
+    root = "meta_region_0"
+    H = {
+        "e": {"k": "basic", "jt": ["outer"], "be": [], "up": root},
+        "outer": {"k": "region", "jt": ["z"], "be": [], "up": root, "rk": "loop", "header": "inner", "exiting": "x", "pp": root, "sr": "outer"},
+        "z": {"k": "basic", "jt": [], "be": [], "up": root},
+        "inner": {"k": "region", "jt": ["x"], "be": [], "up": "outer", "rk": "loop", "header": "hreg", "exiting": "b", "pp": "outer", "sr": "inner"},
+        "x": {"k": "basic", "jt": ["z", "inner"], "be": ["inner"], "up": "outer"},
+        "hreg": {"k": "region", "jt": ["b"], "be": [], "up": "inner", "rk": "head", "header": "h", "exiting": "h", "pp": "inner", "sr": "hreg"},
+        "b": {"k": "basic", "jt": ["x", "hreg"], "be": ["hreg"], "up": "inner"},
+        "h": {"k": "basic", "jt": ["b"], "be": [], "up": "hreg"},
+    }
+    return unproject(H, root, {"meta": 1}, {root: ["e", "outer", "z"], "outer": ["inner", "x"], "inner": ["hreg", "b"], "hreg": ["h"]})
+
+
 BUILDERS = {
+    "nested-headers": _nested_headers,
     "wide-loop-11": lambda: _wide_loop(11),
     "wide-loop-13": lambda: _wide_loop(13),
     "wide-loop-12": lambda: _wide_loop(12),
